@@ -146,7 +146,9 @@ fn eval_tamper(case: &str) -> Out {
             let (mut tx, mut spent) = (b.tx.clone(), b.spent.clone());
             let (app, chg) = match apply_tamper(&t, &mut tx, &mut spent) { Some(x) => x, None => return Out::ok("harnesserr cannot corrupt".into()) };
             let tampered = verify_verdict(&tx, &spent);
-            let pred_fail = if base == "ok" && app && chg && tampered == "ok" {
+            let pred_fail = if base != "ok" && c04_hypotheses(&spec) {
+                Some(format!("genuine-tx-rejected|verify_tx_amt_proofs returns {} on the genuine (balanced, correctly blinded) transaction", base))
+            } else if base == "ok" && app && chg && tampered == "ok" {
                 Some(format!("tampered-tx-verifies|verify_tx_amt_proofs accepts the transaction after tamper {} ({})", ts, class_of(&t)))
             } else { None };
             Out { result: format!("app={} chg={} base={} tampered={}", app as u8, chg as u8, base, tampered), pred_fail }
@@ -167,7 +169,7 @@ fn eval_explicit(case: &str) -> Out {
         if s.sec.value == 0 { inputs_ok = false; }
         *bal.entry(s.sec.asset).or_default() += s.sec.value as i128;
         if let Some(x) = &s.iss {
-            let (a, t) = txin_for(i, &s.iss).issuance_ids();
+            let (a, t) = own_issuance_ids(i, x);
             if let Some(v) = x.amount { *bal.entry(a).or_default() += v as i128; }
             if let Some(v) = x.keys { *bal.entry(t).or_default() += v as i128; }
         }
@@ -235,7 +237,9 @@ fn eval_opened(case: &str) -> Out {
     let (mut tx, mut spent) = (tx0.clone(), spent0.clone());
     let (app, chg) = match apply_tamper(&t, &mut tx, &mut spent) { Some(x) => x, None => return Out::ok("harnesserr cannot corrupt".into()) };
     let tampered = verify_verdict(&tx, &spent);
-    let pred_fail = if base == "ok" && app && chg && tampered == "ok" {
+    let pred_fail = if base != "ok" {
+        Some(format!("genuine-tx-rejected|verify_tx_amt_proofs returns {} on the genuine transaction (real-network vector / balanced transaction built from its opened form)", base))
+    } else if app && chg && tampered == "ok" {
         Some(format!("tampered-tx-verifies|verify_tx_amt_proofs accepts the transaction after tamper {} ({})", ts, class_of(&t)))
     } else { None };
     Out { result: format!("app={} chg={} base={} tampered={}", app as u8, chg as u8, base, tampered), pred_fail }
@@ -299,7 +303,7 @@ fn mixed_cases(rng: &mut ChaCha20Rng, n: usize, thorough: bool) -> Vec<Case> {
     let mut out = vec![];
     let mut k = 0;
     while out.len() < n && k < 4 * n + 8 {
-        let sh = Shape { nin: 1 + k % 3, nassets: 1 + (k / 2) % 2, extra_outs: 2 + k % 3, iss: [0, 1, 0, 3][k % 4], fee: k % 3 != 2 };
+        let sh = Shape { nin: 1 + k % 3, nassets: 1 + (k / 2) % 2, extra_outs: 2 + k % 3, iss: [0, 4, 1, 4][k % 4], fee: k % 3 != 2 };
         k += 1;
         let mut tg = vec![];
         let base = gen_balanced(rng, &sh, &mut tg);
@@ -338,7 +342,10 @@ fn mixed_cases(rng: &mut ChaCha20Rng, n: usize, thorough: bool) -> Vec<Case> {
                 ts.push(format!("oasset:{}:{}", j, adesc(&b.sec.asset, &rabf(rng))));
                 ts.push(format!("oasset:{}:{}", j, adesc(&other_asset(rng, &b.sec.asset), &b.sec.asset_bf)));
                 for t in ["rmsp", "corsp"] { ts.push(format!("{}:{}", t, j)); }
-            } else { ts.push(format!("oasset:{}:E{}", j, tag_hex(&other_asset(rng, &b.sec.asset)))); }
+            } else {
+                ts.push(format!("oasset:{}:E{}", j, tag_hex(&other_asset(rng, &b.sec.asset))));
+                for (i, s) in base.ins.iter().enumerate() { if let Some(x) = &s.iss { if own_issuance_ids(i, x).1 == b.sec.asset { ts.push(format!("oasset:{}:E{}", j, tag_hex(&own_token_other_flag(i, x)))); } } }
+            }
             for (l, c) in bouts.iter().enumerate().skip(j + 1) {
                 let (cv2, ca2) = (c.kind == 'c' || c.kind == 'v', c.kind == 'c' || c.kind == 'a');
                 if conf_v && cv2 { ts.push(format!("swapval:{}:{}", j, l)); if conf_a == ca2 { ts.push(format!("swaprp:{}:{}", j, l)); } }
@@ -357,7 +364,9 @@ fn mixed_cases(rng: &mut ChaCha20Rng, n: usize, thorough: bool) -> Vec<Case> {
             let j: usize = t.split(':').nth(1).and_then(|x| x.parse().ok()).unwrap_or(0);
             let form = match bouts[j].kind { 'c' => "conf-asset-conf-value", 'v' => "explicit-asset-conf-value", 'a' => "conf-asset-explicit-value", _ => "explicit-asset-explicit-value" };
             out.push(Case { text: format!("C05 opened in={} bout={} seed={} tamper={}", ins_text, bout_text, hex(&seed), t),
-                            tags: vec![format!("tamper-{}", class_of(&tp)), format!("at-{}", form), "mixed-outputs".into()], nontrivial: true });
+                            tags: { let mut v = vec![format!("tamper-{}", class_of(&tp)), format!("at-{}", form), "mixed-outputs".into()]; v.extend(tg.iter().filter(|x| x.starts_with("iss")).cloned());
+                                    if t.starts_with("oasset") && base.ins.iter().enumerate().any(|(i, s)| s.iss.as_ref().map(|x| t.ends_with(&tag_hex(&own_token_other_flag(i, x)))).unwrap_or(false)) { v.push("tamper-token-relabelled-other-flag".into()); } v },
+                            nontrivial: true });
         }
     }
     out
@@ -417,6 +426,8 @@ pub fn all_tampers(rng: &mut ChaCha20Rng, spec: &TxSpec, b: &Blinded) -> Vec<Str
                 v.push(format!("oval:{}:E{}", j, o.value + 1 + rng.gen_range(0..1000)));
                 if o.value > 1 { v.push(format!("oval:{}:E{}", j, o.value - 1)); }
                 v.push(format!("oasset:{}:E{}", j, tag_hex(&other_asset(rng, &o.asset))));
+                // a reissuance-token output relabelled to the token id with the other confidentiality flag
+                for (i, s) in spec.ins.iter().enumerate() { if let Some(x) = &s.iss { if own_issuance_ids(i, x).1 == o.asset { v.push(format!("oasset:{}:E{}", j, tag_hex(&own_token_other_flag(i, x)))); } } }
             }
             Some((val, vbf, a, abf)) => {
                 v.push(format!("oval:{}:{}", j, vdesc(val + 1, &vbf, &a, &abf)));
@@ -441,8 +452,8 @@ pub fn all_tampers(rng: &mut ChaCha20Rng, spec: &TxSpec, b: &Blinded) -> Vec<Str
     } }
     for (i, s) in spec.ins.iter().enumerate() {
         if let Some(x) = &s.iss {
-            if let Some(a) = x.amount { v.push(format!("iss:{}:a:{}", i, a + 1 + rng.gen_range(0..100))); }
-            if let Some(k) = x.keys { v.push(format!("iss:{}:k:{}", i, k + 1)); }
+            if let (Some(a), None) = (x.amount, x.amount_vbf) { v.push(format!("iss:{}:a:{}", i, a + 1 + rng.gen_range(0..100))); }
+            if let (Some(k), None) = (x.keys, x.keys_vbf) { v.push(format!("iss:{}:k:{}", i, k + 1)); }
         }
         if s.ev { v.push(format!("sval:{}:E{}", i, s.sec.value + 1)); if s.sec.value > 1 { v.push(format!("sval:{}:E{}", i, s.sec.value - 1)); } }
         else { v.push(format!("sval:{}:{}", i, vdesc(s.sec.value + 1, &s.sec.value_bf, &s.sec.asset, &s.sec.asset_bf)));
@@ -465,7 +476,7 @@ pub fn gen(rng: &mut ChaCha20Rng, n: usize, thorough: bool) -> Vec<Case> {
     let n_tamper = n_vec + n * 3 / 4;
     let mut k = 0;
     while out.len() < n_tamper {
-        let sh = Shape { nin: 1 + k % 3, nassets: 1 + (k / 3) % 2, extra_outs: 1 + (k / 2) % 3, iss: [0, 1, 0, 2, 3][k % 5], fee: k % 4 != 3 };
+        let sh = Shape { nin: 1 + k % 3, nassets: 1 + (k / 3) % 2, extra_outs: 1 + (k / 2) % 3, iss: [0, 4, 1, 4, 3][k % 5], fee: k % 4 != 3 };
         let mut tags = vec![];
         let base = gen_balanced(rng, &sh, &mut tags);
         let nm = base.outs.iter().filter(|o| !o.script.is_empty()).count() as u32;
@@ -480,12 +491,15 @@ pub fn gen(rng: &mut ChaCha20Rng, n: usize, thorough: bool) -> Vec<Case> {
             // keep one of each class (rotating the position) plus a few more
             let mut seen: BTreeMap<&'static str, usize> = BTreeMap::new();
             let rot = rng.gen_range(0..4);
-            ts.retain(|t| { let c = class_of(&parse_tamper(t).unwrap()); let e = seen.entry(c).or_default(); *e += 1; (*e + rot) % 4 == 1 });
+            let relabel = |t: &str| t.starts_with("oasset") && spec.ins.iter().enumerate().any(|(i, s)| s.iss.as_ref().map(|x| t.ends_with(&tag_hex(&own_token_other_flag(i, x)))).unwrap_or(false));
+            ts.retain(|t| { let c = class_of(&parse_tamper(t).unwrap()); let e = seen.entry(c).or_default(); *e += 1; (*e + rot) % 4 == 1 || relabel(t) });
         }
         for t in ts {
             if out.len() >= n_tamper { break; }
             let tp = parse_tamper(&t).unwrap();
             let mut tg = vec![format!("tamper-{}", class_of(&tp))];
+            tg.extend(tags.iter().filter(|x| x.starts_with("iss")).cloned());
+            if t.starts_with("oasset") && spec.ins.iter().enumerate().any(|(i, s)| s.iss.as_ref().map(|x| t.ends_with(&tag_hex(&own_token_other_flag(i, x)))).unwrap_or(false)) { tg.push("tamper-token-relabelled-other-flag".into()); }
             shape_tags(&spec, &mut tg);
             out.push(Case { text: format!("C05 tamper prof=d {} rnd={} seed={} tamper={}", fmt_spec(&spec), rnd, hex(&seed), t), tags: tg, nontrivial: true });
         }
